@@ -92,6 +92,18 @@ def regenerate():
     rc, out = sh([PY, os.path.join(VERIF, "harness", "extract_layouts.py"), os.path.join(COQ, "Gen", "Layouts.v")], 60, env=IMPL_ENV)
     if rc != 0:
         raise BuildError("extract_layouts failed:\n" + out)
+    # the regular expressions the decoders are built on
+    rc, out = sh([PY, os.path.join(VERIF, "harness", "extract_regexes.py"), os.path.join(COQ, "Gen", "Regexes.v")], 120, env=IMPL_ENV)
+    if rc != 0:
+        raise BuildError("extract_regexes failed:\n" + out)
+    # the effect skeletons of the --clean paths, extracted from the source text
+    rc, out = sh([PY, os.path.join(VERIF, "harness", "extract_clean.py"), os.path.join(COQ, "Gen", "CleanGen.v")], 60, env=IMPL_ENV)
+    if rc != 0:
+        raise BuildError("extract_clean failed:\n" + out)
+    # the I/O-drawer stream readers, translated from the source text into programs of Model/StreamProg.v
+    rc, out = sh([PY, os.path.join(VERIF, "harness", "extract_readers.py"), os.path.join(COQ, "Gen", "Readers.v")], 60, env=IMPL_ENV)
+    if rc != 0:
+        raise BuildError("extract_readers failed:\n" + out)
     # the mode dispatch of main(), extracted from the source text
     rc, out = sh([PY, os.path.join(VERIF, "harness", "extract_dispatch.py"), os.path.join(COQ, "Gen", "Dispatch.v")], 60, env=IMPL_ENV)
     if rc != 0:
